@@ -39,7 +39,7 @@ def obsWal (w0 : Wal) (maxIdx : Nat) : String × Wal := Id.run do
     let lo0 := if f > 2 then f - 2 else 0
     for lo in [lo0:l+1] do
       for hi in [lo+1:l+2] do
-        for ms in [0, 10, 1099511627776] do
+        for ms in [0, 10, 30, 1099511627776] do
           match w.entries lo hi ms with
           | .ok (es, w') => out := out ++ s!" E{lo},{hi},{ms}={fmtEnts es}/ok"; w := w'
           | .error e => out := out ++ s!" E{lo},{hi},{ms}=/{errStr e}"
@@ -61,7 +61,7 @@ def obsMem (m : Mem) (maxIdx : Nat) : String := Id.run do
   let lo0 := if f > 2 then f - 2 else 0
   for lo in [lo0:l+1] do
     for hi in [lo+1:l+2] do
-      for ms in [0, 10, 1099511627776] do
+      for ms in [0, 10, 30, 1099511627776] do
         match m.entries lo hi ms with
         | .ok es => out := out ++ s!" E{lo},{hi},{ms}={fmtEnts es}/ok"
         | .error e => out := out ++ s!" E{lo},{hi},{ms}=/{errStr e}"
